@@ -826,3 +826,39 @@ def r_silent_timeout(ctx):
         ctx.violation('TcpConnection:no-timeout-check-on-events', checker.loc(), 'the poll event handler does not evaluate the read timeout', instance=inst)
     # the timestamp is refreshed by reads only
     ctx.expect_min(2)
+
+
+@rule('R-readonly-id-unique', 'the identity given to an incoming read-only peer is never reused: the counter it is built from '
+                              'is only ever incremented')
+def r_readonly_id_unique(ctx):
+    P = ctx.P
+    T = transport_parts(ctx)
+    f = T.methods['_onIncomingMessageReceived']
+    counter = None
+    for n in ast.walk(f.node):
+        if isinstance(n, ast.Call) and unparse(n.func) in ('Node', 'str'):
+            for x in ast.walk(n):
+                a = P.self_attr(x, f.self_name)
+                if a and 'ounter' in a:
+                    counter = a
+    if counter is None:
+        for n in ast.walk(f.node):
+            if isinstance(n, ast.AugAssign) and P.self_attr(n.target, f.self_name):
+                counter = P.self_attr(n.target, f.self_name)
+    ctx.require(counter, 'counter naming read-only peers not found')
+    n = 0
+    for m in P.methods_of(T):
+        for st, kind in U.assigns_to_attr(P, m, counter):
+            n += 1
+            inst = '%s: `%s`' % (m.qualname, unparse(st))
+            ctx.tick()
+            if m.name == '__init__' and kind == 'assign' and isinstance(st.value, ast.Constant):
+                ctx.ok(inst, m.loc(st), 'initialisation', nontrivial=False)
+            elif U.increment_amount(P, m, st, counter) is not None:
+                ctx.ok(inst, m.loc(st), 'increment')
+            else:
+                ctx.violation('%s:readonly-id-counter-rewritten' % m.qualname, m.loc(st),
+                              'the counter that names read-only peers is changed by `%s`: a later peer gets the identity of one that is still connected and takes over its connection slot'
+                              % unparse(st), instance=inst)
+    # the id is taken before the increment
+    ctx.expect_min(2)
